@@ -24,7 +24,9 @@ Up(f) == CASE f = "a" -> "A" [] f = "b" -> "B" [] f = "c" -> "C" [] f = "z" -> "
 \* property mix = allOf[{"$ref": "#/$defs/Base"}, ..]: the textually identical reference with a different target in
 \* every document (in a shared package the same-named definitions would be renamed by order of arrival)
 OwnPkgs == Mapping \in {"own", "samebase"}
-TypesDef == [f \in FilesDef |-> {Up(f) \o "Json", Up(f) \o "Def"} \cup (IF OwnPkgs THEN {Up(f) \o "JsonMix"} ELSE {})]
+\* mapping "own" also names the root type of every id (--schema-root-type): Root<F> instead of <F>Json
+RootName(f) == IF Mapping = "own" THEN "Root" \o Up(f) ELSE Up(f) \o "Json"
+TypesDef == [f \in FilesDef |-> {RootName(f), Up(f) \o "Def"} \cup (IF OwnPkgs THEN {RootName(f) \o "Mix"} ELSE {})]
 CommonDef == IF OwnPkgs THEN {"Base"} ELSE {}
 \* mapping modes: default (everything to one file / package), own (each id its own), sharedsame (a and b share a
 \* file and package), shareddiff (a and b share a file under different packages: must fail), pkgonly (b has a
